@@ -71,15 +71,60 @@ def intoReprCore (rf : Refuse) (hp : Heap) (rows : List (Int × Int × Nat)) (wi
         | .ok _ hp2 r2 => some (some r2, hp2)
         | _ => none
 
-/-- `NumToRepr::into_repr` by type name; `none` = unknown type name -/
-def intToRepr (rf : Refuse) (hp : Heap) (ty : String) (v : Int) : Option (Option Handle × Heap) :=
-  let base := if ty.startsWith "nz_" then (ty.drop 3).toString else ty
-  if base == "u128" || base == "i128" then
+/-- the integer types `to_lean_string` is specialised for (NonZero forms delegate to these) -/
+inductive IntTy
+  | u8 | i8 | u16 | i16 | u32 | i32 | u64 | i64 | u128 | i128 | usize | isize
+  deriving DecidableEq, Repr
+
+def IntTy.ofName : String → Option IntTy
+  | "u8" => some .u8 | "i8" => some .i8 | "u16" => some .u16 | "i16" => some .i16
+  | "u32" => some .u32 | "i32" => some .i32 | "u64" => some .u64 | "i64" => some .i64
+  | "u128" => some .u128 | "i128" => some .i128 | "usize" => some .usize | "isize" => some .isize
+  | _ => none
+
+/-- value range of the Rust type (x86-64: `usize` = 64 bits) -/
+def IntTy.lo : IntTy → Int
+  | .i8 => -128 | .i16 => -32768 | .i32 => -2147483648 | .i64 | .isize => -9223372036854775808
+  | .i128 => -170141183460469231731687303715884105728
+  | _ => 0
+
+def IntTy.hi : IntTy → Int
+  | .u8 => 255 | .i8 => 127 | .u16 => 65535 | .i16 => 32767 | .u32 => 4294967295 | .i32 => 2147483647
+  | .u64 | .usize => 18446744073709551615 | .i64 | .isize => 9223372036854775807
+  | .u128 => 340282366920938463463374607431768211455 | .i128 => 170141183460469231731687303715884105727
+
+/-- the `DigitCount` table of a type (`usize`/`isize` through the generated delegation); `none` for
+the 128-bit types, which go through `itoa` -/
+def IntTy.rows : IntTy → Option (List (Int × Int × Nat))
+  | .u8 => some Gen.digitTable_u8 | .i8 => some Gen.digitTable_i8
+  | .u16 => some Gen.digitTable_u16 | .i16 => some Gen.digitTable_i16
+  | .u32 => some Gen.digitTable_u32 | .i32 => some Gen.digitTable_i32
+  | .u64 => some Gen.digitTable_u64 | .i64 => some Gen.digitTable_i64
+  | .usize => digitTable Gen.digitDelegate_usize
+  | .isize => digitTable Gen.digitDelegate_isize
+  | .u128 | .i128 => none
+
+/-- `size_of::<$t>() >= 2` -/
+def IntTy.wide : IntTy → Bool
+  | .u8 | .i8 => false
+  | _ => true
+
+/-- `NumToRepr::into_repr`; the outer `none` = a gap in the table (cannot happen in range: Props/C14) -/
+def intToReprTy (rf : Refuse) (hp : Heap) (ty : IntTy) (v : Int) : Option (Option Handle × Heap) :=
+  match ty with
+  | .u128 | .i128 =>
     -- `Repr::from_str(itoa::Buffer::new().format(self))`; itoa is assumed to print `decimal`
     some (fromStr rf hp (decimal v))
-  else
-  match digitTable ty with
+  | _ =>
+    match ty.rows with
+    | none => none
+    | some rows => intoReprCore rf hp rows ty.wide v
+
+/-- by type name as written in the scripts (`nz_` = the NonZero form, which delegates) -/
+def intToRepr (rf : Refuse) (hp : Heap) (ty : String) (v : Int) : Option (Option Handle × Heap) :=
+  let base := if ty.startsWith "nz_" then (ty.drop 3).toString else ty
+  match IntTy.ofName base with
   | none => none
-  | some rows => intoReprCore rf hp rows (!(base == "u8" || base == "i8")) v   -- `size_of::<$t>() >= 2`
+  | some t => intToReprTy rf hp t v
 
 end LS
